@@ -202,6 +202,10 @@ pub fn load_known(verif_dir: &std::path::Path) -> Vec<KnownFinding> {
     out
 }
 
+pub fn out_dir(ctx: &Ctx) -> PathBuf {
+    std::env::var("SEEDSIM_OUT_DIR").map(PathBuf::from).unwrap_or_else(|_| ctx.verif_dir.clone())
+}
+
 pub struct Summary {
     pub violations: u64,
     pub exit_code: i32,
@@ -302,8 +306,19 @@ pub fn run_property(ctx: &Ctx, prop: &dyn Property) -> Summary {
     let mut samples: Vec<J> = vec![];
     let mut viols: Vec<(u64, Case, Violation)> = vec![];
     let mut known_seen: BTreeMap<String, u64> = BTreeMap::new();
+    let mut digest: u64 = 0xcbf2_9ce4_8422_2325;
     for (i, slot) in results.into_iter().enumerate() {
         let (case, out) = slot.expect("missing result");
+        digest = digest.rotate_left(5) ^ case.key() ^ fnv1a(out.to_json().to_string().as_bytes());
+        if let Ok(f) = std::env::var("SEEDSIM_DUMP") {
+            use std::io::Write;
+            if let Ok(mut fh) = std::fs::OpenOptions::new().create(true).append(true).open(&f) {
+                let _ = writeln!(fh, "{} {:016x} {} {}", i, case.key(), case.plan.encode_items(), out.to_json());
+                if std::env::var("SEEDSIM_DUMP_CASE").ok().and_then(|v| v.parse::<usize>().ok()) == Some(i) {
+                    let _ = std::fs::write(format!("{f}.case{i}.json"), case.to_json().to_string());
+                }
+            }
+        }
         for f in &out.fired {
             *fired.entry(f.clone()).or_insert(0) += 1;
         }
@@ -385,7 +400,11 @@ pub fn run_property(ctx: &Ctx, prop: &dyn Property) -> Summary {
     if total_skipped * 2 > n {
         harness_errors.push(format!("more than half of the cases were skipped ({total_skipped}/{n})"));
     }
+    let unparsed = probes.get("unparsed").copied().unwrap_or(0);
     for p in prop.required_probes(&ctx.tier) {
+        if unparsed * 10 > n {
+            break;
+        }
         if probes.get(&p).copied().unwrap_or(0) == 0 && fired.get(&p).copied().unwrap_or(0) == 0 {
             harness_errors.push(format!("coverage probe '{p}' stayed at zero"));
         }
@@ -421,16 +440,18 @@ pub fn run_property(ctx: &Ctx, prop: &dyn Property) -> Summary {
                 "model": ["W2 call-chain walker + layout printer", "W3 sorted-map object model"],
             },
             "harness_errors": harness_errors,
+            "result_digest": format!("{digest:016x}"),
         },
         "assumptions": prop.assumptions(),
         "wall_s": wall,
         "violations": nviol,
     });
-    let evdir = ctx.verif_dir.join("evidence");
+    let evdir = out_dir(ctx).join("evidence");
     let _ = std::fs::create_dir_all(&evdir);
     let evpath = evdir.join(format!("{label}.json"));
     std::fs::write(&evpath, serde_json::to_string_pretty(&ev).unwrap()).expect("cannot write evidence");
 
+    println!("seedsim: property={} result_digest={:016x}", label, digest);
     println!(
         "seedsim: property={} cases={} child_runs={} distinct_nontrivial={} skipped={} violations={} wall={:.1}s",
         label,
